@@ -22,13 +22,15 @@ import (
 // truncates. Built on the ledger machine so that C01/C03/C09 oracles keep running on both nodes.
 
 type c07Plan struct {
-	Region    int  `json:"region_steps"`
-	Extra     int  `json:"filler_extra"`
-	StaleTip  bool `json:"stale_tip"`  // a vertex on old parents is delivered just before the cut
-	Second    bool `json:"second"`     // a second truncation after 1000 more vertices
-	FollowUps int  `json:"follow_ups"` // operations after each truncation
-	Rogue     bool `json:"rogue"`
-	Bulky     int  `json:"bulky"` // number of region vertices carrying a 48 KB contract payload (0 = none)
+	Region   int  `json:"region_steps"`
+	Extra    int  `json:"filler_extra"`
+	StaleTip bool `json:"stale_tip"` // a vertex on old parents is delivered just before the cut
+	// StaleOverdraw: that vertex always sits on a payment to its issuer and spends one smallest unit more than the issuer owns
+	StaleOverdraw bool `json:"stale_overdraw"`
+	Second        bool `json:"second"`     // a second truncation after 1000 more vertices
+	FollowUps     int  `json:"follow_ups"` // operations after each truncation
+	Rogue         bool `json:"rogue"`
+	Bulky         int  `json:"bulky"` // number of region vertices carrying a 48 KB contract payload (0 = none)
 }
 
 func c07f(m *lm, s *sim.Snap, tip ref.Hash, addr string) *big.Int {
@@ -404,6 +406,15 @@ func (m *lm) checkpointOverdrawn() bool {
 	return false
 }
 
+func containsHash(hs []ref.Hash, h ref.Hash) bool {
+	for _, x := range hs {
+		if x == h {
+			return true
+		}
+	}
+	return false
+}
+
 // buildsOnStaleTip: one of the vertex's parents (or their ancestors among the tips recorded at the cut) is a tip
 // that did not descend from the cut.
 func (m *lm) buildsOnStaleTip(v *accountant.Vertex) bool {
@@ -517,6 +528,32 @@ func c07Run(rt *rapid.T, p c07Plan, seed string) (*lm, []string, error) {
 			from := m.pickSpender("staleFrom")
 			to := m.pickReceiver("staleTo", from)
 			amt := m.drawAmount(A, from, "staleAmt")
+			if p.StaleOverdraw || rapid.Bool().Draw(m.rt, "staleOnOwnIncome") {
+				// the late vertex sits on a vertex that PAID its issuer and spends one smallest unit more than the issuer owns:
+				// its parent will be checkpointed, so the parent's payment reaches the funds test through the checkpoint - once
+				var cands []ref.Hash
+				for _, h := range ref.SortedHashes(m.snaps[A].LiveSet()) {
+					if v := m.w.Arch.V[h]; v != nil && ref.IsSpice(v) && h != m.w.Genesis.Hash {
+						if _, isOld := m.w.Arch.Anc(old)[h]; isOld || h == old || containsHash(oldParents, h) {
+							cands = append(cands, h)
+						}
+					}
+				}
+				if len(cands) > 0 {
+					ph := cands[rapid.IntRange(0, len(cands)-1).Draw(m.rt, "staleParent")]
+					pv := m.w.Arch.V[ph]
+					for wi, k := range m.w.Wallets {
+						if k.Addr == pv.Transaction.ReceiverAddress && wi <= m.cfg.Users {
+							bal := m.viewBalance(A, wi)
+							if a, ok := ref.FromBig(new(big.Int).Add(bal, big.NewInt(1))); ok && bal.Sign() >= 0 {
+								old, from, amt = ph, wi, a
+								to = (wi + 1) % (m.cfg.Users + 1)
+								m.label("c07:stale-tip-overdraws-by-one-unit-on-its-own-income")
+							}
+						}
+					}
+				}
+			}
 			res := m.w.Apply(sim.Op{K: "craft", Sealer: m.w.RogueWallet(1), From: from, To: to, C: amt.Currency, S: amt.SupplementaryCurrency, L: m.w.OrderIndex(old), R: m.w.OrderIndex(old)})
 			idx := m.w.OrderIndex(res.Vertex.Hash)
 			da := m.w.Apply(sim.Op{K: "deliver", N: A, V: idx})
@@ -649,6 +686,9 @@ func TestC07(t *testing.T) {
 			break
 		}
 		c07Race(t, st, i)
+	}
+	if shard()%3 == 1 {
+		c07BigTurnover(t, st)
 	}
 	caseNo := 0
 	rapid.Check(t, func(rt *rapid.T) {
